@@ -233,8 +233,10 @@ def strip_kinds(n, kinds):
 
 
 class Closure:
-    def __init__(self, interp, params, body, defaults, is_expr):
+    def __init__(self, interp, params, body, defaults, is_expr, self_name=None):
         self.interp, self.params, self.body, self.defaults, self.is_expr = interp, params, body, defaults, is_expr
+        self.self_name = self_name      # set for a method of the class called as self.<method>(...)
+        self.vararg = None
 
 
 class _PPRef:
@@ -342,6 +344,23 @@ class Interp:
                     self._busy.discard(key)
         raise TranslateError("attribute %s not found in %s (%s)" % (
             attr, "/".join(c.name for c in self.classes) or "<no class>", _where(node) if node else ""))
+
+    def _method(self, name):
+        """a plain method of the class (helper into which a part of the construction was extracted)"""
+        for c in self.classes:
+            for st in c.body:
+                if isinstance(st, ast.FunctionDef) and st.name == name:
+                    a = st.args
+                    static = [d for d in st.decorator_list if isinstance(d, ast.Name) and d.id == "staticmethod"]
+                    if a.vararg or a.kwarg or a.kwonlyargs or a.posonlyargs or len(static) != len(st.decorator_list) \
+                            or (not static and not a.args):
+                        raise TranslateError("helper method %s: signature not modelled (%s)" % (name, _where(st)))
+                    params = [x.arg for x in a.args]
+                    return Closure(self, params if static else params[1:], body_without_docstring(st),
+                                   [self.eval(d) for d in a.defaults], False, None if static else params[0])
+                if isinstance(st, ast.Assign) and any(isinstance(t, ast.Name) and t.id == name for t in st.targets):
+                    return None
+        return None
 
     def _module_attr(self, mod, attr, node):
         if mod == "string":
@@ -597,9 +616,11 @@ class Interp:
             return v[self.eval(node.slice)]
         if isinstance(node, ast.Lambda):
             a = node.args
-            if a.vararg or a.kwarg or a.kwonlyargs or a.posonlyargs:
-                raise TranslateError("lambda with */** parameters is not modelled (%s)" % _where(node))
-            return Closure(self, [x.arg for x in a.args], node.body, [self.eval(d) for d in a.defaults], True)
+            if a.kwarg or a.kwonlyargs or a.posonlyargs:
+                raise TranslateError("lambda with ** / keyword-only parameters is not modelled (%s)" % _where(node))
+            c = Closure(self, [x.arg for x in a.args], node.body, [self.eval(d) for d in a.defaults], True)
+            c.vararg = a.vararg.arg if a.vararg else None
+            return c
         if isinstance(node, ast.Starred):
             raise TranslateError("unexpected * expression (%s)" % _where(node))
         raise TranslateError("cannot evaluate `%s` (%s)" % (_src(node), _where(node)))
@@ -654,6 +675,9 @@ class Interp:
             if base.id in self.self_names and base.id not in self.vars:
                 if node.attr in self.selfattrs:
                     return self.selfattrs[node.attr]
+                m = self._method(node.attr)
+                if m is not None:
+                    return m
                 return self.class_attr(node.attr, node)
             if base.id in [c.name for c in self.classes] and base.id not in self.vars:
                 return self.class_attr(node.attr, node)
@@ -765,9 +789,14 @@ class Interp:
         raise TranslateError("cannot call `%s` (%s)" % (_src(node.func) if hasattr(node, "func") else "?", _where(node)))
 
     def _call_closure(self, c, args, kw, node):
-        if len(args) > len(c.params):
-            raise TranslateError("too many arguments for local helper (%s)" % _where(node))
         frame = {}
+        if len(args) > len(c.params):
+            if c.vararg is None:
+                raise TranslateError("too many arguments for local helper (%s)" % _where(node))
+            frame[c.vararg] = tuple(args[len(c.params):])
+            args = args[:len(c.params)]
+        elif c.vararg is not None:
+            frame[c.vararg] = ()
         nd = len(c.defaults)
         for i, p in enumerate(c.params):
             if i < len(args):
@@ -783,6 +812,9 @@ class Interp:
         sub = Interp.__new__(Interp)
         sub.__dict__.update(self.__dict__)
         sub.vars = _Chain(frame, self.vars)
+        if c.self_name is not None:
+            sub.vars = _Chain(frame, {})          # a method sees its own locals (and the module), not the caller's
+            sub.self_names = set(self.self_names) | {c.self_name}
         if c.is_expr:
             return sub.eval(c.body)
         try:
@@ -858,9 +890,11 @@ class Interp:
             pass
         elif isinstance(st, ast.FunctionDef):
             a = st.args
-            if a.vararg or a.kwarg or a.kwonlyargs or a.posonlyargs or st.decorator_list:
+            if a.kwarg or a.kwonlyargs or a.posonlyargs or st.decorator_list:
                 raise TranslateError("local helper %s: signature not modelled (%s)" % (st.name, _where(st)))
-            self.vars[st.name] = Closure(self, [x.arg for x in a.args], st.body, [self.eval(d) for d in a.defaults], False)
+            c = Closure(self, [x.arg for x in a.args], body_without_docstring(st), [self.eval(d) for d in a.defaults], False)
+            c.vararg = a.vararg.arg if a.vararg else None
+            self.vars[st.name] = c
         elif isinstance(st, ast.Return):
             raise _Return(self.eval(st.value) if st.value is not None else None)
         elif isinstance(st, (ast.Import, ast.ImportFrom)):
